@@ -127,6 +127,16 @@ class Prop(common.PropertyCheck):
             c.update({'dt': 'F', 'frac_range': True, 'D': [3, 3, 11][i % 3]})
             yield c
 
+        # CREATOR values that mention the acquisition program somewhere else than at the start (vendor prefix, leading blank): the documented
+        # fallbacks for detector voltage (BD$WORDn) and gain (CytekPnnG) apply whenever the program name occurs in CREATOR
+        creators = ['BD CellQuest Pro 5.2.1', 'Tree Star FlowJoCollectorsEdition 7.5.110.7', ' CellQuest Pro', 'BD FACSCalibur / CellQuest Pro 6.0', 'x FlowJoCollectorsEdition',
+                    'CellQuest ProFlowJoCollectorsEdition', 'FlowJoCollectorsEdition+CellQuest Pro', 'cellquest pro 5.2', 'CellQuestPro']
+        for i in range(self.budget(36, 300)):
+            sub = ['CREATOR', 'BD$WORDn', 'CytekPnnG'] + [o for o in ('$PnV', '$PnG', '$PnS', '$DATE') if (i >> (1 + ('$PnV', '$PnG', '$PnS', '$DATE').index(o))) & 1 and i % 4 == 3]
+            c = self.make_case(rng, sub, timech=[None, 'Time'][i % 2])
+            c.update({'creator': creators[i % len(creators)], 'D': [3, 11, 12][i % 3]})
+            yield c
+
     def spec_of(self, case):
         import random
         r = random.Random(case['seed'])
@@ -271,7 +281,7 @@ class Prop(common.PropertyCheck):
             want, src = None, 'absent'
         self.bump('acq:' + src)
         got = impl.get('acq')
-        if (got is None) != (want is None) or (want is not None and abs(got - want) > 1e-9 * max(1, abs(want))):
+        if (got is None) != (want is None) or (want is not None and common.far(got, want, 1e-9 * max(1, abs(want)))):
             return 'acquisition_time is %r, expected %r from %s' % (got, want, src)
         return None
 
